@@ -322,6 +322,25 @@ def ref_search(v, pat, all_):
     return items if all_ else None
 
 
+@C.oracle('search_keys')
+def o_search_keys(src, patterns):
+    """keys that are not strings (integers, bytes, tuples: a regular expression cannot match them) are passed over, wherever they sit"""
+    c = eval(src, dict(Container=Container, ListContainer=ListContainer))
+    for p in patterns:
+        pat = re.compile(p)
+        srch = (lambda x, q: Container.search_all(x, q)) if isinstance(c, Container) else (lambda x, q: ListContainer.search_all(x, q))
+        first = (lambda x, q: Container.search(x, q)) if isinstance(c, Container) else (lambda x, q: ListContainer.search(x, q))
+        try:
+            got_all, got_first = srch(c, p), first(c, p)
+        except Exception as e:
+            return 'search raised %s: %s' % (type(e).__name__, str(e)[:80])
+        if got_all != ref_search(c, pat, True):
+            return 'search_all(%r) gave %r, the matching entries in traversal order are %r' % (p, got_all, ref_search(c, pat, True))
+        if got_first != ref_search(c, pat, False):
+            return 'search(%r) gave %r, the first matching entry is %r' % (p, got_first, ref_search(c, pat, False))
+    return None
+
+
 @C.oracle('search')
 def o_search(src, tree, patterns):
     c = I.to_container(tree)
@@ -420,6 +439,11 @@ def run(tier, seed):
         cases.append(dict(src='cops', op='cops', ops=cops))
         acc.check('search', 'Container', tree=gen_tree(rng, 3), patterns=['a', '.', 'k.*s', '^_', 'x|b', 'items$', '(', ''] if False else ['a', '.', 'k.*s', '^_', 'x|b', 'items$', ''])
         acc.check('listcontainer', 'ListContainer', items=[gen_tree(rng, 1) if rng.random() < 0.5 else rng.choice(LEAVES) for _ in range(rng.randint(0, 4))])
+    for src in ['Container([("aa", 1), (5, 2), ("ab", 3), (b"k", 4), (("t", 1), 5), ("ac", Container([(7, 1), ("a9", 2), ("zz", 3)]))])',
+                'Container([(0, "first"), ("a", 1), (None, 2), ("ba", 3)])',
+                'ListContainer([Container([(1, 1), ("a", 2)]), Container([("a", 3), (2.5, 4), ("ab", 5)]), [Container([(b"a", 6), ("a", 7)])]])',
+                'Container([("x", ListContainer([Container([(9, 9), ("ay", 1)]), 5])), (3, Container(a=4)), ("az", 2)])']:
+        acc.check('search_keys', src, patterns=['a', 'ab', '.', 'z', 'a.', '^a$', ''])
     # hex helpers
     lens = list(range(0, 40)) + [63, 64, 65, 255, 256, 257, 1000]
     datas = [G.rand_bytes(rng, k) for k in lens] + [bytes(range(256)), b' ' * 33, b'\n' * 5, b'""")' * 3]
